@@ -75,6 +75,9 @@ func guard(err *error) {
 }
 
 func scalar(it *simdjson.Iter, typ simdjson.Type) (abs.Value, error) {
+	if t := it.Type(); t != typ {
+		return abs.Value{}, fmt.Errorf("the call that queued this value announced %v, Type() on the same iterator says %v", typ, t)
+	}
 	v, err := scalar0(it, typ)
 	if err != nil {
 		return v, err
@@ -182,6 +185,9 @@ func scalar0(it *simdjson.Iter, typ simdjson.Type) (abs.Value, error) {
 
 func valueA(it *simdjson.Iter, typ simdjson.Type, b *budget) (abs.Value, error) {
 	b.step()
+	if t := it.Type(); t != typ {
+		return abs.Value{}, fmt.Errorf("the call that queued this value announced %v, Type() on the same iterator says %v", typ, t)
+	}
 	switch typ {
 	case simdjson.TypeObject:
 		obj, err := it.Object(nil)
@@ -291,6 +297,9 @@ func depthOK(v abs.Value) bool { return v.Depth() <= 3 }
 
 func valueB(it *simdjson.Iter, typ simdjson.Type, b *budget) (abs.Value, error) {
 	b.step()
+	if t := it.Type(); t != typ {
+		return abs.Value{}, fmt.Errorf("the call that queued this value announced %v, Type() on the same iterator says %v", typ, t)
+	}
 	switch typ {
 	case simdjson.TypeObject:
 		obj, err := it.Object(nil)
@@ -474,6 +483,9 @@ func readC(pj *simdjson.ParsedJson) (out []abs.Value, err error) {
 
 func valueD(it *simdjson.Iter, typ simdjson.Type, b *budget) (abs.Value, error) {
 	b.step()
+	if t := it.Type(); t != typ {
+		return abs.Value{}, fmt.Errorf("the call that queued this value announced %v, Type() on the same iterator says %v", typ, t)
+	}
 	switch typ {
 	case simdjson.TypeObject:
 		obj, err := it.Object(nil)
@@ -616,6 +628,9 @@ func (r *reuseState) at(depth int) (*simdjson.Object, *simdjson.Array, *simdjson
 
 func valueE(it *simdjson.Iter, typ simdjson.Type, b *budget, rs *reuseState, depth int) (abs.Value, error) {
 	b.step()
+	if t := it.Type(); t != typ {
+		return abs.Value{}, fmt.Errorf("the call that queued this value announced %v, Type() on the same iterator says %v", typ, t)
+	}
 	od, ad, ed := rs.at(depth)
 	switch typ {
 	case simdjson.TypeObject:
